@@ -97,6 +97,7 @@ def res_script(rng, i):
     join_epoch["A"] = 0
     total = 4 + rng.below(3)
     late_at = 2 + rng.below(2)
+    last_save = {}
     for e in range(total):
         cc = rng.choice(inside)
         ops.append({"op": "opts", "who": cc, "encrypt_controls": False, "path_required": True})
@@ -114,8 +115,13 @@ def res_script(rng, i):
             ops.append({"op": "join", "who": "E", "welcome_any": f"u{e}"})
             inside.append("E")
             join_epoch["E"] = epoch
+        # two members out of three write their state after an epoch; the others keep the epochs they
+        # entered since their last write in memory only (the repository's pending inserts)
         for n in inside:
-            ops.append({"op": "save", "who": n})
+            if rng.chance(2, 3):
+                ops.append({"op": "save", "who": n})
+                last_save[n] = epoch
+    unwritten = {n: list(range(last_save.get(n, join_epoch[n]), epoch)) for n in inside}
     ref = rng.below(epoch)          # referenced epoch, 0 .. current-1
     ops.append({"op": "observe", "who": "A", "observe": "all"})
     obs_i = len(ops) - 1
@@ -129,7 +135,7 @@ def res_script(rng, i):
     ops.append({"op": "opts", "who": "A", "encrypt_controls": False})
     ops.append({"op": "commit", "who": "A", "id": "cr", "resumption": [ref]})
     attempts.append((len(ops) - 1, "A"))
-    meta = {"committer": "A", "ref": ref, "epoch": epoch, "join_epoch": join_epoch, "deliveries": [], "retries": [], "join": None, "kind": "resumption", "obs": obs_i, "rets": rets, "commit": len(ops) - 1, "attempts": attempts}
+    meta = {"committer": "A", "ref": ref, "epoch": epoch, "join_epoch": join_epoch, "deliveries": [], "retries": [], "join": None, "kind": "resumption", "obs": obs_i, "rets": rets, "commit": len(ops) - 1, "attempts": attempts, "unwritten": unwritten}
     for n in inside:
         if n != "A":
             ops.append({"op": "deliver", "to": n, "msg": "cr", "snap_before": True, "observe": n})
@@ -212,8 +218,9 @@ def main(run, args):
             pre = byi.get(meta["obs"], {}).get("obs", {})
             ox = pre.get(x) or {}
             st_x = "[" + "; ".join(f"(1, {e}, {e})" for e in (ox.get("stored_epochs") or []) if e is not None) + "]"
-            cases.append((f"can_resolve {st_x} 1 {meta['epoch']} [PResumption 1 {meta['ref']}]", bool(r.get("ok")),
-                          {"script": sc["name"], "member": x, "kind": "resumption commit attempt", "referenced_epoch": meta["ref"], "current_epoch": meta["epoch"], "stored": ox.get("stored_epochs"), "retention": meta["rets"].get(x), "library": r.get("err") or "ok"}))
+            un_x = "[" + "; ".join(f"({e}, {e})" for e in meta["unwritten"].get(x, [])) + "]"
+            cases.append((f"can_resolve_u {un_x} {st_x} 1 {meta['epoch']} [PResumption 1 {meta['ref']}]", bool(r.get("ok")),
+                          {"script": sc["name"], "member": x, "kind": "resumption commit attempt", "referenced_epoch": meta["ref"], "current_epoch": meta["epoch"], "stored": ox.get("stored_epochs"), "unwritten": meta["unwritten"].get(x), "retention": meta["rets"].get(x), "library": r.get("err") or "ok"}))
         if meta["kind"] == "resumption" and not byi.get(meta["commit"], {}).get("ok"):
             # the committer itself no longer holds the epoch (compared with the model above): nothing to deliver
             meta = dict(meta, deliveries=[])
@@ -246,8 +253,9 @@ def main(run, args):
                 oc = pre.get(c) or {}
                 st_n = "[" + "; ".join(f"(1, {e}, {e})" for e in (on.get("stored_epochs") or []) if e is not None) + "]"
                 st_c = "[" + "; ".join(f"(1, {e}, {e})" for e in (oc.get("stored_epochs") or []) if e is not None) + "]"
-                cases.append((f"same_psks [] {st_c} [] {st_n} 1 {meta['epoch']} [PResumption 1 {meta['ref']}]", ok,
-                              dict(ctx, referenced_epoch=meta["ref"], current_epoch=meta["epoch"], joined_at=meta["join_epoch"].get(n), retention=meta["rets"].get(n), stored=on.get("stored_epochs"), library=r.get("err") or "ok")))
+                un = lambda x: "[" + "; ".join(f"({e}, {e})" for e in meta["unwritten"].get(x, [])) + "]"
+                cases.append((f"same_psks_u {un(c)} {st_c} {un(n)} {st_n} 1 {meta['epoch']} [PResumption 1 {meta['ref']}]", ok,
+                              dict(ctx, referenced_epoch=meta["ref"], current_epoch=meta["epoch"], joined_at=meta["join_epoch"].get(n), retention=meta["rets"].get(n), stored=on.get("stored_epochs"), unwritten=meta["unwritten"].get(n), library=r.get("err") or "ok")))
                 if not ok:
                     stats["refused_missing"] += 1
             else:
@@ -275,13 +283,18 @@ def main(run, args):
                 failing.append({"what": "a joiner without the PSKs used the Welcome" if r.get("ok") else "a joiner holding all PSKs could not use the Welcome", "script": sc["name"], "joiner_holds": hj, "committer_holds": hc, "error": r.get("err")})
     mism = []
     coq_cases = 0
-    if proofs_ok and cases:
+    if model_ready(proofs_ok) and cases:
         text = ("From Coq Require Import NArith List Bool.\nFrom MlsV Require Import PskIdeal Pending.\nImport ListNotations.\nLocal Open Scope N_scope.\n"
                 "Definition hol (ext : list (N * N)) (st : list (N * N * N)) (gid ep : N) : holder := {| h_gid := gid; h_epoch := ep; h_current := ep; h_unwritten := []; h_stored := st; h_external := ext |}.\n"
                 "Definition same_psks (ec : list (N * N)) (sc : list (N * N * N)) (en : list (N * N)) (sn : list (N * N * N)) (gid ep : N) (ids : list pskid) : N :=\n"
                 "  match resolve_all (hol ec sc gid ep) ids, resolve_all (hol en sn gid ep) ids with\n"
                 "  | Some a, Some b => if list_eqb a b then 1 else 0 | _, _ => 0 end.\n"
                 "Definition can_resolve (st : list (N * N * N)) (gid ep : N) (ids : list pskid) : N := match resolve_all (hol [] st gid ep) ids with Some _ => 1 | None => 0 end.\n"
+                "Definition holu (un : list (N * N)) (st : list (N * N * N)) (gid ep : N) : holder := {| h_gid := gid; h_epoch := ep; h_current := ep; h_unwritten := un; h_stored := st; h_external := [] |}.\n"
+                "Definition can_resolve_u (un : list (N * N)) (st : list (N * N * N)) (gid ep : N) (ids : list pskid) : N := match resolve_all (holu un st gid ep) ids with Some _ => 1 | None => 0 end.\n"
+                "Definition same_psks_u (uc : list (N * N)) (sc : list (N * N * N)) (un : list (N * N)) (sn : list (N * N * N)) (gid ep : N) (ids : list pskid) : N :=\n"
+                "  match resolve_all (holu uc sc gid ep) ids, resolve_all (holu un sn gid ep) ids with\n"
+                "  | Some a, Some b => if list_eqb a b then 1 else 0 | _, _ => 0 end.\n"
                 "Eval vm_compute in [" + ";\n".join(c[0] for c in cases) + "].\n")
         nums, logtxt = coq_eval_cases("C18_cases", text, timeout=900)
         if nums is None or len(nums) != len(cases):
@@ -292,7 +305,7 @@ def main(run, args):
                 if bool(v) != ok:
                     (failing if True else mism).append(dict(ctx, what="a member holding every PSK was refused (commit or build)" if v == 1 else "a member that lacks a PSK, holds another value or no longer retains the referenced epoch ACCEPTED the commit / could build it", model="accept" if v else "refuse"))
     wf_cases = 0
-    if proofs_ok and writes:
+    if model_ready(proofs_ok) and writes:
         lst = lambda l: "[" + "; ".join(str(x) for x in l) + "]"
         distinct = sorted({(tuple(a), tuple(b), tuple(c)) for a, b, c, _ in writes})
         text = ("From Coq Require Import NArith List Bool.\nFrom MlsV Require Import PskIdeal.\nImport ListNotations.\nLocal Open Scope N_scope.\n"
